@@ -224,6 +224,10 @@ class Driver:
             from elfi.model.elfi_model import ComputationContext
             self.obj = self.st.ArrayPool(NODES, name='p', prefix=d)
             self.obj.set_context(ComputationContext(batch_size=h['bs'], seed=123))
+        # originals of pickle round trips: in half of the histories they stay alive (as in a process that hands a copy of its
+        # store to someone else) and are closed only at the very end, after the copy has written on and closed
+        self.stale = []
+        self.keep_originals = bool(h['bs'] % 2)
 
     def files(self):
         if self.kind == 'pool':
@@ -275,8 +279,13 @@ class Driver:
                 self.obj = self.st.NpyArray(os.path.join(self.d, 's'))
             elif k == 'pickle':
                 self.obj = pickle.loads(pickle.dumps(o))
+                if self.keep_originals:
+                    self.stale.append(o)
             elif k == 'close':
                 o.close()
+                for old in self.stale:
+                    old.close()
+                del self.stale[:]
         elif self.kind == 'store':
             if k == 'append':
                 o[op[1]] = mkbatch(h, op[2])
@@ -295,8 +304,13 @@ class Driver:
                 self.obj = self.st.NpyStore(os.path.join(self.d, 's'), bs)
             elif k == 'pickle':
                 self.obj = pickle.loads(pickle.dumps(o))
+                if self.keep_originals:
+                    self.stale.append(o)
             elif k == 'close':
                 o.close()
+                for old in self.stale:
+                    old.close()
+                del self.stale[:]
         else:
             if k == 'append':
                 o.add_batch({n: mkbatch(h, op[2], i) for i, n in enumerate(NODES)}, op[1])
@@ -319,9 +333,14 @@ class Driver:
             elif k == 'pickle':
                 # a pool is persisted by save(); its stores are pickled one by one
                 for n in NODES:
+                    if self.keep_originals and o.stores[n] is not None:
+                        self.stale.append(o.stores[n])
                     o.stores[n] = pickle.loads(pickle.dumps(o.stores[n]))
             elif k == 'close':
                 o.close()
+                for old in self.stale:
+                    old.close()
+                del self.stale[:]
 
     # -- views for monitor A
     def n_batches(self, node):
